@@ -9,6 +9,7 @@ package consensus
 
 import (
 	"fmt"
+	"os"
 	"runtime"
 	"sort"
 	"sync"
@@ -255,6 +256,27 @@ func c03Suffix(s *c01Setup, nodes []*dsNode, suffix string, r *vr.Report) (key, 
 		}
 		drainOwn()
 		if !fired {
+			if os.Getenv("C03_DEBUG") != "" {
+				for _, n := range nodes {
+					fmt.Printf("DEBUG v%d h%d r%d s%d locked=%v proposal=%v pbparts=%v\n", n.idx, n.cs.Height, n.cs.Round, n.cs.Step, n.cs.LockedBlock != nil, n.cs.Proposal != nil, n.cs.ProposalBlockParts != nil)
+					if n.cs.Height == w.Height {
+						fmt.Printf("  votes: %s\n", n.cs.Votes.StringIndented("  "))
+						for _, vs := range []*types.VoteSet{n.cs.Votes.Prevotes(0), n.cs.Votes.Precommits(0)} {
+							for i := 0; i < 4; i++ {
+								if v := vs.GetByIndex(int32(i)); v != nil {
+									_, val := w.state0.Validators.GetByIndex(int32(i))
+									fmt.Printf("    slot %d type %d block %X sig-valid=%v\n", i, v.Type, v.BlockID.Hash, v.Verify(w.ChainID, val.PubKey) == nil)
+								}
+							}
+						}
+					} else {
+						fmt.Printf("  lastcommit: %v\n", n.cs.LastCommit)
+						for _, hm := range c03HeldBy(n) {
+							fmt.Printf("  held %s claim=%v\n", hm.key, hm.claim)
+						}
+					}
+				}
+			}
 			return "consensus:stuck-after-synchrony", fmt.Sprintf("no message deliverable and no timeout pending, undecided nodes remain (rounds %v)", c03Rounds(nodes)), 0
 		}
 		for _, n := range nodes {
